@@ -457,6 +457,9 @@ class Solver(object):
         # integrate with.
         self.dt = self._get_timestep()
 
+        # The first step may exceed a requested output time.
+        self._adjust_timestep_for_output()
+
         while (self.tf - self.t) > self._epsilon and \
               (self.count < self.max_steps):
 
@@ -707,7 +710,18 @@ class Solver(object):
 
         # Consider the other cases if user has requested output at a specified
         # time.
+        if self._adjust_timestep_for_output():
+            dump = True
 
+        if dump:
+            self.dump_output()
+            self.barrier()
+
+    def _adjust_timestep_for_output(self):
+        """Adjust `dt` so the next step does not go past a requested output
+        time. Returns True if the current time is a requested output time.
+        """
+        at_output_time = False
         output_at_times = self.output_at_times
         dt = self.dt
 
@@ -717,7 +731,7 @@ class Solver(object):
             tdiff = output_at_times - self.t
 
             if numpy.any(numpy.abs(tdiff) < self._epsilon):
-                dump = True
+                at_output_time = True
 
             # Our next step may exceed a required timestep so we adjust the
             # timestep.
@@ -740,9 +754,7 @@ class Solver(object):
                     self._prev_dt = dt
                     self.dt = float(output_time - self.t)
 
-        if dump:
-            self.dump_output()
-            self.barrier()
+        return at_output_time
 
     def _get_solver_data(self):
         if self._prev_dt is not None:
